@@ -60,7 +60,7 @@ let has_prefix s p = String.length s >= String.length p && String.sub s 0 (Strin
 
 let judge _name ins outs =
   match ins with
-  | "UF" :: _mode :: toks ->
+  | "UF" :: mode :: toks ->
       let es = List.map parse_exchange toks in
       if List.exists (fun t -> has_prefix t "DEAD") outs then
         VPropfail ("proxy_process_terminated", String.concat " " (List.filter (fun t -> has_prefix t "DEAD") outs))
@@ -68,6 +68,21 @@ let judge _name ins outs =
         VDisagree ("harness:" ^ String.concat "," outs)
       else begin
         let raws = List.filter_map parse_resp outs in
+        (* Carrier "l" (a body-snapshotting logger in the modifier chain): when the origin's body ends early the
+           logger has already consumed it, so the client gets FEWER body bytes than the origin delivered, and
+           martian adds a Warning for the modifier's read error. Both are within the property (a detectably
+           incomplete response followed by close); such a response is accepted as the expected one. Anything
+           else - a complete-looking response, a kept connection - is not. *)
+        let raws =
+          if String.length mode > 0 && mode.[0] = 'l' then
+            let want = List.map project (fst (spec_view es)) in
+            List.mapi (fun i r ->
+                match List.nth_opt want i with
+                | Some w when w.o_state = PIncomplete && r.w_state = PIncomplete && r.w_status = w.o_status
+                              && r.w_id = w.o_id && is_prefix r.w_rbody w.o_body ->
+                    { r with w_rbody = w.o_body; w_warnings = [] }
+                | _ -> r) raws
+          else raws in
         let rs = List.map observe raws in
         let fin = match List.find_opt (fun t -> has_prefix t "END:") outs with
           | Some t -> String.sub t 4 (String.length t - 4) | None -> "missing" in
@@ -109,8 +124,15 @@ let judge _name ins outs =
                | Some r when r.w_warnings <> [] ->
                    " warning=" ^ String.concat "|" (List.map (fun v -> String.escaped (string_of_chars v)) r.w_warnings)
                | _ -> "") in
+          (* the i-th response token's own state string (parse_state folds the details away) *)
+          let raw_state =
+            match List.nth_opt (List.filter (fun t -> has_prefix t "R:") outs) i with
+            | Some t -> (match List.rev (String.split_on_char ':' t) with st :: _ -> st | [] -> "")
+            | None -> "" in
           let clause =
             match w, g with
+            | _, Some _ when raw_state = "err-status-line-malformed" -> "status_line_wellformed"
+            | _, Some _ when raw_state = "err-header-malformed" || raw_state = "err-content-length-malformed" -> "response_head_wellformed"
             | Some w, Some g when not (is_prefix g.o_body w.o_body) -> "no_cross_response_bytes"
             | Some w, Some g when w.o_status = n_of_int 502 && g.o_status = w.o_status && not g.o_warning
                                   && (match List.nth_opt raws i with Some r -> r.w_warnings <> [] | None -> false) ->
